@@ -123,6 +123,47 @@ def vtables_complete(R, P):
     R.require(n >= 3, "only %d logger vtables with a stored level found (confirmed: owned pipeline, unowned pipeline, no-alloc)" % n)
 
 
+def _snapshots(f):
+    """the locals of the background thread function that hold a snapshot of the pending count / the finished flag:
+    initialised or assigned from the read itself, or from another snapshot local (a helper's result variable, an
+    out-parameter bound to a local of the thread function)"""
+    srcs = {}
+    defs = []
+    for b_ in f.blocks.values():
+        for el in b_.elems:
+            for x in f.walk(el):
+                if x["k"] == "decl":
+                    for v in x["vars"]:
+                        if v.get("init") is not None:
+                            defs.append((v["n"], v["init"]))
+                elif x["k"] == "bin" and x["op"] == "=":
+                    l_ = f.d(x["a"][0])
+                    if l_ is not None and l_["k"] == "un" and l_["op"] == "deref":
+                        l_ = RU.strip_addr(f, l_["a"][0])
+                    if l_ is not None and l_["k"] == "var":
+                        defs.append((l_["n"], x["a"][1]))
+    changed = True
+    while changed:
+        changed = False
+        for tname, rhs in defs:
+            if tname in srcs:
+                continue
+            i = RU.uncast(f, rhs)
+            kind = None
+            if i is None:
+                continue
+            if i["k"] == "call" and i.get("callee") == "aws_array_list_length" and (RU.strip_addr(f, RU.arg(f, i, 0)) or {}).get("f") == "pending_log_lines":
+                kind = "count"
+            elif i["k"] == "member" and i.get("rec") == BG and i["f"] == "finished":
+                kind = "finished"
+            elif i["k"] == "var" and i["n"] in srcs:
+                kind = srcs[i["n"]]
+            if kind:
+                srcs[tname] = kind
+                changed = True
+    return srcs
+
+
 def _assignment_of(f, ev):
     for b in f.blocks.values():
         for el in b.elems:
@@ -269,20 +310,46 @@ def ownership(R, ch, lg):
     if sw:
         batch = argstr(f, sw[0].node, 1)
 
+        snaps = {k for k, v in _snapshots(f).items() if v == "count"}
+        reads = [e for e in f.calls("aws_array_list_length") if (RU.strip_addr(f, RU.arg(f, e.node, 0)) or {}).get("f") == "pending_log_lines"]
+        one_read = len(reads) == 1  # then every snapshot local holds the value of that one read until it is made again
+
         def tr2(e, s):
+            ph, z = s
             if e.kind == "call":
                 c = e.node.get("callee")
                 if c == "aws_array_list_swap_contents":
-                    return "BAD" if s == "dirty" else "dirty"
+                    return ("BAD" if ph == "dirty" else "dirty", z)
                 if c == "aws_array_list_clear" and argstr(f, e.node, 0) == batch:
-                    return "clean"
+                    return ("clean", z)
                 if c in ("aws_array_list_init_dynamic",) and argstr(f, e.node, 0) == batch:
-                    return "clean"
+                    return ("clean", z)
+                if any(e is r_ for r_ in reads):
+                    return (ph, None)
             return s
 
-        ts2 = Typestate(f, "uninit", tr2)
-        allst = set().union(*ts2.before.values()) if ts2.before else set()
-        R.check("BAD" not in allst | ts2.exit_states, "OWNERSHIP", "background:batch-cleared-before-next-swap", where(f, sw[0]),
+        def edge2(cond, pol, s, fn, b):
+            # the swap and the clean-up of the batch are decided by tests of the same snapshot of the pending count: a path
+            # that has seen it non-zero cannot then see it zero
+            if not one_read:
+                return s
+            g = RU.cmp_norm(fn, cond, pol)
+            if not g or g[2] is None:
+                return s
+            l, op, r = RU.uncast(fn, g[0]), g[1], RU.uncast(fn, g[2])
+            if l is None or l["k"] != "var" or l["n"] not in snaps or fn.is_const(r) != 0:
+                return s
+            new = "Z" if op in ("==", "<=") else ("NZ" if op in ("!=", ">") else None)
+            if new is None:
+                return s
+            if s[1] is not None and s[1] != new:
+                return []
+            return (s[0], new)
+
+        ts2 = Typestate(f, ("uninit", None), tr2, edge2)
+        allst = {u[0] for v_ in ts2.before.values() for u in v_} if ts2.before else set()
+        allst |= {u[0] for u in ts2.exit_states}
+        R.check("BAD" not in allst, "OWNERSHIP", "background:batch-cleared-before-next-swap", where(f, sw[0]),
                 "the written batch is cleared before it is swapped back", "the batch list still holds destroyed lines when it is swapped into the pending list again")
         # the loop over the batch covers line_count entries read from the pending list under the lock
         lens = [e for e in f.calls("aws_array_list_length") if (RU.strip_addr(f, RU.arg(f, e.node, 0)) or {}).get("f") == "pending_log_lines"]
@@ -402,17 +469,7 @@ def background(R, ch):
 
     # EXIT: loop left only with (empty, finished) observed in the current critical section
     f = ch["aws_background_logger_thread"]
-    srcs = {}
-    for e in f.all_events():
-        if e.kind == "decl":
-            for v in e.node["vars"]:
-                i = f.d(v.get("init")) if v.get("init") else None
-                if i is None:
-                    continue
-                if i["k"] == "call" and i.get("callee") == "aws_array_list_length" and (RU.strip_addr(f, RU.arg(f, i, 0)) or {}).get("f") == "pending_log_lines":
-                    srcs[v["n"]] = "count"
-                if i["k"] == "member" and i.get("rec") == BG and i["f"] == "finished":
-                    srcs[v["n"]] = "finished"
+    srcs = _snapshots(f)
     R.require(set(srcs.values()) == {"count", "finished"}, "background thread: snapshot locals of count/finished not found (%s)" % srcs)
 
     def flag_of(rhs):
